@@ -22,13 +22,29 @@ Verdict check_alloc(const Plan& plan, Stats& st) {
     Verdict none;
     st.runs++;
     run_reset(plan.junk, (ReusePolicy)plan.reuse, plan.redzone);
-    std::vector<MgrInst> mgrs = build_managers({MK_COMPLETED}, {0});
+    // one or two completed managers over different backends, alive together: handles 0-3 belong to the first, 4-7 to the last
+    const bool two = plan.mgrs.size() >= 2;
+    // the second manager is completed when its first handle is used, i.e. in the middle of the first one's history
+    std::vector<MgrInst> mgrs = two ? build_managers({MK_COMPLETED, MK_COMPLETED}, {0, 0}, true) : build_managers({MK_COMPLETED}, {0});
+    if (two) complete_manager(mgrs[0]);
+    if (g.abort_run) {
+        for (auto& v : g.violations) if (kind_relevant("C15", v.kind)) {
+            Verdict d; d.violated = true; d.kind = v.kind; d.op = -1; d.detail = v.detail + " (while completing the manager)"; d.op_kind = "-"; d.concrete = plan; d.ev_hash = g.ev_hash; st.trials++; return d;
+        }
+    }
     UriMemoryManager* mem = mgrs[0].table;
-    const int mid = mgrs[0].id;
+    int mid = mgrs[0].id;
+    auto select_mgr = [&](int handle) {
+        MgrInst& m = mgrs[(two && handle >= 4) ? 1 : 0];
+        if (!m.table) { complete_manager(m); st.probe("second_manager_completed_mid_history"); }
+        mem = m.table; mid = m.id;
+    };
     Handle h[8];
+    const size_t unsatisfiable = g_arena[A_HEAP].size >> 2;   // the simulated backend refuses anything above a quarter of its arena (rt.cpp heap_malloc)
     unsigned long long sig = 1469598103934665603ull;
     bool any_fault = false;
 
+    auto has_relevant = [&]() { for (auto& v : g.violations) if (kind_relevant("C15", v.kind)) return true; return false; };
     auto fail = [&](int opi, const std::string& what) { g.cur->op = opi; violate(V_ALLOC_MODEL, what, false); };
     auto fill = [&](Handle& x) { for (size_t i = 0; i < x.size; i++) x.p[i] = (unsigned char)(x.pat + (unsigned char)i); };
     auto check_content = [&](const Handle& x, const unsigned char* p, size_t n) { for (size_t i = 0; i < n; i++) if (p[i] != (unsigned char)(x.pat + (unsigned char)i)) return false; return true; };
@@ -62,6 +78,7 @@ Verdict check_alloc(const Plan& plan, Stats& st) {
         FaultPlan fp; if (op.fail_k > 0) { fp.k = op.fail_k; fp.mode = op.fail_mode; fp.set = op.fail_set; }
         int ha = op.a >= 0 && op.a < 8 ? op.a : -1;
         Handle* x = ha >= 0 ? &h[ha] : nullptr;
+        select_mgr(ha >= 0 ? ha : op.b);   // a call without a handle (realloc(NULL), free(NULL)) goes to the manager the spare index selects
         unsigned long long failed_before = g.hs.failed;
         unsigned char* res = nullptr; volatile int rc = 0; bool ok = true;
         event("op %d %s h%d n1=%llu n2=%llu", i, opkind_name(op.kind), ha, op.n1, op.n2);
@@ -89,15 +106,22 @@ Verdict check_alloc(const Plan& plan, Stats& st) {
             if (!ok) break;
             if (fired) { any_fault = true; st.fault("backend_fail", (unsigned long long)fired); }
             bool backend_failed = g.hs.failed != failed_before;
-            if (ovf || hdr_ovf) {
-                if (res) fail(i, std::string(cal ? "calloc" : "malloc") + " with an overflowing size returned non-NULL");
-                else if (errno != ENOMEM) fail(i, std::string(cal ? "calloc" : "malloc") + " with an overflowing size did not set errno to ENOMEM (errno=" + std::to_string(errno) + ")");
-                if (reqs) fail(i, "overflowing request reached the backend");
+            (void)hdr_ovf; (void)reqs;
+            if (ovf) {
+                if (res) fail(i, "calloc with an overflowing element-count product returned non-NULL");
+                else if (errno != ENOMEM) fail(i, "calloc with an overflowing element-count product did not set errno to ENOMEM (errno=" + std::to_string(errno) + ")");
                 st.probe("size_overflow_refused");
                 break;
             }
+            if (total > unsatisfiable) {
+                // no backend can deliver this much; whether the manager refuses it itself (header arithmetic, any header layout) or lets
+                // the backend refuse it is its own business: NULL is the only acceptable answer
+                if (res) fail(i, std::string(cal ? "calloc" : "malloc") + "(" + std::to_string(total) + ") returned non-NULL for a size no backend can deliver");
+                st.probe("huge_request_refused");
+                break;
+            }
             if (backend_failed) { if (res) fail(i, "backend failure did not surface as NULL"); st.probe("backend_failure_surfaced"); break; }
-            if (!res) { if (total) fail(i, std::string(cal ? "calloc" : "malloc") + "(" + std::to_string(total) + ") returned NULL although the backend did not fail"); break; }
+            if (!res) { if (total && total + 4096 <= unsatisfiable) fail(i, std::string(cal ? "calloc" : "malloc") + "(" + std::to_string(total) + ") returned NULL although the backend did not fail"); break; }
             x->p = res; x->size = total; x->live = true; x->pat = (unsigned char)(17 * i + 3);
             if (!check_new_block(i, *x, cal ? "calloc" : "malloc")) break;
             if (cal) for (size_t k = 0; k < total; k++) if (res[k]) { fail(i, "calloc memory is not zeroed at offset " + std::to_string(k)); break; }
@@ -138,10 +162,10 @@ Verdict check_alloc(const Plan& plan, Stats& st) {
                 x->live = false; st.probe("realloc_to_zero_frees");
                 break;
             }
-            if (hdr_ovf && !(old && total <= old_size)) {
-                if (res) fail(i, "realloc with a size that overflows the header arithmetic returned non-NULL");
-                else if (errno != ENOMEM) fail(i, "realloc with an overflowing size did not set errno to ENOMEM");
-                old_intact(); st.probe("size_overflow_refused");
+            (void)hdr_ovf;
+            if (total > unsatisfiable && !(old && total <= old_size)) {
+                if (res) fail(i, "realloc(" + std::to_string(total) + ") returned non-NULL for a size no backend can deliver");
+                old_intact(); st.probe("huge_request_refused");
                 break;
             }
             if (backend_failed) {
@@ -149,7 +173,7 @@ Verdict check_alloc(const Plan& plan, Stats& st) {
                 old_intact(); st.probe("realloc_backend_failure_old_intact");
                 break;
             }
-            if (!res) { if (total) { fail(i, "realloc(" + std::to_string(total) + ") returned NULL although the backend did not fail"); } if (x && !old) x->live = false; break; }
+            if (!res) { if (total && total + 4096 <= unsatisfiable) { fail(i, "realloc(" + std::to_string(total) + ") returned NULL although the backend did not fail"); } else if (total) old_intact(); if (x && !old) x->live = false; break; }
             if (!x) {   // realloc(NULL, n) with no handle to keep it: release at once
                 call_begin(i, -1, mid, FaultPlan()); LIBCALL_RUN({ mem->free(mem, res); }, ok); call_end();
                 break;
@@ -199,13 +223,13 @@ Verdict check_alloc(const Plan& plan, Stats& st) {
                                                       : (check_content(h[k], h[k].p, 256) && [&] { Handle t = h[k]; size_t off = t.size - 256; for (size_t z = 0; z < 256; z++) if (t.p[off + z] != (unsigned char)(t.pat + (unsigned char)(off + z))) return false; return true; }());
             if (!same) { fail(i, "contents of live block h" + std::to_string(k) + " changed during a call on another block"); break; }
         }
-        if (!g.violations.empty()) break;
+        if (has_relevant()) break;
     }
     // free everything, backend must be empty
-    if (!g.abort_run && g.violations.empty()) {
+    if (!g.abort_run && !has_relevant()) {
         int n = (int)plan.ops.size();
         for (int k = 0; k < 8 && !g.abort_run; k++) if (h[k].live) {
-            bool ok; unsigned char* p = h[k].p;
+            bool ok; unsigned char* p = h[k].p; select_mgr(k);
             call_begin(n, -1, mid, FaultPlan()); LIBCALL_RUN({ mem->free(mem, p); }, ok); call_end();
             h[k].live = false;
         }
